@@ -4,7 +4,7 @@ from fractions import Fraction
 from vlib.common import frac_of_hex, f64_of_hex, is_finite_hex
 
 IMPORTS = ("From Coq Require Import String List Bool ZArith QArith.\n"
-           "From SpdVerif Require Import Base.NumOps Spec.ConfigSpec Gen.ConfigTables Model.ConfigTypes Model.Config "
+           "From SpdVerif Require Import Base.CfgNumOps Spec.ConfigSpec Gen.ConfigTables Model.ConfigTypes Model.Config "
            "Model.NumInst Model.ConfigCheck.\n"
            "Import ListNotations.\nLocal Open Scope Q_scope.\nLocal Open Scope string_scope.\n")
 
